@@ -58,6 +58,8 @@ def enc(o):
     if isinstance(o, fractions.Fraction):
         return {"__q__": [o.numerator, o.denominator]}
     if isinstance(o, _dt.datetime):
+        if o.fold:
+            return {"__dtfold__": o.isoformat()}
         return {"__dt__": o.isoformat()}
     if isinstance(o, _dt.date):
         return {"__d__": o.isoformat()}
@@ -90,6 +92,8 @@ def dec(o):
                 return fractions.Fraction(v[0], v[1])
             if k == "__dt__":
                 return _dt.datetime.fromisoformat(v)
+            if k == "__dtfold__":
+                return _dt.datetime.fromisoformat(v).replace(fold=1)
             if k == "__d__":
                 return _dt.date.fromisoformat(v)
             if k == "__t__":
